@@ -312,6 +312,7 @@ class QuicConnection:
         self._local_ack_delay_exponent = 3
         self._local_active_connection_id_limit = 8
         self._local_challenges: dict[bytes, QuicNetworkPath] = {}
+        self._local_challenges_forgotten = False
         self._local_initial_source_connection_id = self._host_cids[0].cid
         self._local_max_data = Limit(
             frame_type=QuicFrameType.MAX_DATA,
@@ -2106,6 +2107,9 @@ class QuicConnection:
         try:
             network_path = self._local_challenges.pop(data)
         except KeyError:
+            if self._local_challenges_forgotten:
+                # This may answer a challenge we sent but no longer remember.
+                return
             raise QuicConnectionError(
                 error_code=QuicErrorCode.PROTOCOL_VIOLATION,
                 frame_type=frame_type,
@@ -3043,6 +3047,7 @@ class QuicConnection:
             # limit.
             key = next(iter(self._local_challenges.keys()))
             del self._local_challenges[key]
+            self._local_challenges_forgotten = True
 
     def _write_application(
         self, builder: QuicPacketBuilder, network_path: QuicNetworkPath, now: float
